@@ -12,6 +12,11 @@ FUNCS = [R + m for m in ("__find__", "enable", "disable", "enableOnly", "at", "b
 def run(tier, seed):
     rep = Report("C11", tier, seed, "proof")
     deductive(rep, "C11", FUNCS, "contracts.ruler", select=lambda q, ob, rel: rel or ob.kind in ("SAFE", "DEC"))
+    # encapsulation (DESIGN 3.1): what getRules hands out is the ruler's cached chain itself - nothing on the parse path
+    # may write an object that outlives the call, in particular not those chains (`chain += ...` extends in place)
+    from .c12 import add_frame
+    PARSE_PATH = ("markdown_it.rules_", "markdown_it.parser_", "markdown_it.helpers", "markdown_it.common", "markdown_it.renderer")
+    add_frame(rep, "C11", filter_fn=lambda o: o["func"].startswith(PARSE_PATH))
     n = len(checks.ruler_ops())
     kmax = 3 if tier == "quick" else 4
     items = [p for k in range(1, kmax + 1) for p in itertools.product(range(n), repeat=k)]
